@@ -147,6 +147,17 @@ int main(int argc, char** argv) {
             for (int spb = 0; spb < 2; ++spb)
                 ops.push_back({ std::string("safe_assign") + (spa ? " dst+sp" : "") + (spb ? " src+sp" : "") + " " + a.substr(0, 16) + " <- " + l.substr(0, 16), true, both(a, l, spa != 0, spb != 0), [](upa::url& x, upa::url& y) { x.safe_assign(std::move(y)); } });
         }
+        // the target is EMPTY (never parsed / failed parse / cleared) but owns a params object that still holds a list:
+        // all-or-nothing includes that list
+        ops.push_back({ "href(" + l.substr(0, 24) + "...) on an empty url with a stale params list", true,
+            [=](upa::url& x, upa::url& y) { y.parse(l, nullptr); x.search_params().append("stale", std::string(30, 's')); x.search_params().append("k", "v"); },
+            [=](upa::url& x, upa::url&) { x.href(l); } });
+        ops.push_back({ "href(" + l.substr(0, 24) + "...) after a failed parse, params object present", true,
+            [=](upa::url& x, upa::url& y) { y.parse(l, nullptr); x.parse(a, nullptr); x.search_params(); x.parse("http://a b/", nullptr); },
+            [=](upa::url& x, upa::url&) { x.href(l); } });
+        ops.push_back({ "safe_assign into an empty url with a stale params list <- " + l.substr(0, 16), true,
+            [=](upa::url& x, upa::url& y) { y.parse(l, nullptr); x.search_params().append("stale", std::string(30, 's')); },
+            [](upa::url& x, upa::url& y) { x.safe_assign(std::move(y)); } });
         ops.push_back({ "parse(" + l.substr(0, 24) + "...) into " + a.substr(0, 20), false, both(a, l, true, false), [=](upa::url& x, upa::url&) { x.parse(l, nullptr); } });
         ops.push_back({ "parse relative against " + a.substr(0, 20), false, both(l, a, false, false), [=](upa::url& x, upa::url& y) { x.parse(std::string("../") + std::string(60, 'r') + "?" + std::string(60, 's'), &y); } });
         ops.push_back({ "copy assign " + a.substr(0, 16), false, both(a, l, true, true), [](upa::url& x, upa::url& y) { x = y; } });
